@@ -47,6 +47,7 @@ type Matcher struct {
 	Name string `json:"n"`
 	Op   string `json:"op"`
 	Val  string `json:"v"`
+	E    bool   `json:"e"` // observation: labels.Matcher.Matches(""), the oracle value the planner model needs for a regex matcher
 }
 type Ctx struct {
 	FromNs  int64 `json:"from_ns"`
@@ -273,12 +274,13 @@ func genMatchers(r *rand.Rand) ([]Matcher, []string) {
 
 func promMatchers(ms []Matcher) ([]*labels.Matcher, error) {
 	var res []*labels.Matcher
-	for _, m := range ms {
+	for i, m := range ms {
 		t := map[string]labels.MatchType{"=": labels.MatchEqual, "!=": labels.MatchNotEqual, "=~": labels.MatchRegexp, "!~": labels.MatchNotRegexp}[m.Op]
 		pm, err := labels.NewMatcher(t, m.Name, m.Val)
 		if err != nil {
 			return nil, err
 		}
+		ms[i].E = pm.Matches("")
 		res = append(res, pm)
 	}
 	return res, nil
